@@ -38,7 +38,7 @@ func (g *vGraph) clone(honour bool) *vGraph {
 
 // c02Stmt: the traversal alphabet. Identifier arguments are symbolic.
 func c02Stmt(name string, wide bool) (*gripql.GraphStatement, string) {
-	n := 16
+	n := 18
 	if wide {
 		n = 24
 	}
